@@ -782,6 +782,31 @@ def run(op):
 ''', [("run", [('+',), ('*',), ('=',), ('<',), ('?',), (None,), (5,), ([],)])])
 
 
+# ---- closure factories: what the factory's parameters were bound to must stay bound (no late binding)
+case('''
+def _make(fn, route):
+    """Build the handler of one route."""
+    def handler(request):
+        return (route, fn(request))
+    return handler
+
+class App:
+    def __init__(self):
+        self.routes = []
+    def add(self, route, h):
+        self.routes.append((route, h))
+
+def run(items):
+    app = App()
+    for route, k in items:
+        fn = (lambda r, k=k: r * k)
+        app.add(route, _make(fn, route))
+    route = "clobbered"
+    fn = None
+    return [(r, h(10)) for r, h in app.routes]
+''', [("run", [([("a", 1), ("b", 2), ("c", 3)],), ([],)])])
+
+
 def outcome(ns, fn, args):
     import copy
     try:
